@@ -3,7 +3,11 @@ package timingmisc
 import (
 	"encoding/json"
 	"fmt"
+	"sync"
+	"time"
 
+	"github.com/sarchlab/akita/v5/hooking"
+	"github.com/sarchlab/akita/v5/messaging"
 	"github.com/sarchlab/akita/v5/modeling"
 	"github.com/sarchlab/akita/v5/timing"
 
@@ -19,6 +23,8 @@ import (
 //	["notify_recv", at, at] NotifyRecv at engine time at      (likewise notify_free)
 //	["run", at, 0]          the processor was invoked with time at
 //	["inreq", at, t]        ScheduleWakeAt(t) called by the processor during the run at time at
+//	["in_notify_recv", at, at]  NotifyRecv reached the component WHILE its processor was running at time at
+//	                        (likewise in_notify_free)
 //	["end", at, 0]          the engine ran out of events (Run returned)
 //
 // — and the check applies the WakeNoLaterThan rules of the specification to it.
@@ -29,6 +35,17 @@ import (
 //	inside   from the handler of an "env" event at the time the specification says; all env events are scheduled before Run
 //	chain    like inside, but each env event schedules the next one, so that wakeups
 //	         scheduled earlier for the same instant are dispatched in between
+//
+// Notification variants (config "notify"; how NotifyRecv / NotifyPortFree are produced, in particular
+// the ones the specification places INSIDE a processor run, codes 100 / 101 of a dispatch):
+//
+//	direct  comp.NotifyRecv(port) / comp.NotifyPortFree(port) called directly (from the processor itself when inside a run)
+//	port    through a real messaging port owned by the component: Deliver into its empty incoming buffer
+//	        (loop-back: the port calls NotifyRecv), Send + RetrieveOutgoing on a full outgoing buffer (the port calls NotifyPortFree)
+//	gate    the processor parks inside Process while ANOTHER goroutine calls NotifyRecv / NotifyPortFree, then resumes
+//	        (what a handler of the same instant does under a parallel engine)
+//
+// Driver "eventdriven_parallel" runs the same situation on a real timing.ParallelEngine.
 type edSpec struct {
 	Label string `json:"label"`
 }
@@ -41,16 +58,61 @@ type edComp = modeling.EventDrivenComponent[edSpec, edState, modeling.None]
 
 type edLog [][3]any
 
+const (
+	codeNotifyRecv = 100 // EventDriven.tla NRecv
+	codeNotifyFree = 101 // EventDriven.tla NFree
+)
+
 type edRun struct {
-	engine *timing.SerialEngine
+	engine timing.Engine
 	comp   *edComp
+	mu     sync.Mutex
 	log    edLog
-	script [][]int // in-process request deltas, one entry consumed per processor invocation
-	err    string
+	script [][]int // what happens during a processor run (request deltas, notification codes), one entry per invocation
+	notify string
+	port   messaging.Port
+	msgID  uint64
 }
 
 func (r *edRun) add(kind string, at, t timing.VTimeInPicoSec) {
+	r.mu.Lock()
 	r.log = append(r.log, [3]any{kind, uint64(at), uint64(t)})
+	r.mu.Unlock()
+}
+
+// stubConn is the connection of the component's loop-back port; it never forwards anything.
+type stubConn struct{ hooking.HookableBase }
+
+func (*stubConn) Name() string                   { return "StubConn" }
+func (*stubConn) PlugIn(messaging.Port)          {}
+func (*stubConn) Unplug(messaging.Port)          {}
+func (*stubConn) NotifyAvailable(messaging.Port) {}
+func (*stubConn) NotifySend()                    {}
+
+type edMsg struct{ messaging.MsgMeta }
+
+// raise makes a NotifyRecv (recv=true) or NotifyPortFree reach the component now.
+func (r *edRun) raise(recv bool) {
+	switch r.notify {
+	case "port":
+		r.msgID++
+		if recv {
+			for r.port.RetrieveIncoming() != nil { // empty buffer: the next Deliver notifies
+			}
+			r.port.Deliver(edMsg{messaging.MsgMeta{ID: r.msgID, Src: "Other.Port", Dst: r.port.AsRemote()}})
+		} else {
+			for r.port.RetrieveOutgoing() != nil {
+			}
+			r.port.Send(edMsg{messaging.MsgMeta{ID: r.msgID, Src: r.port.AsRemote(), Dst: "Other.Port"}})
+			r.port.RetrieveOutgoing() // capacity 1: the buffer was full, the port reports it free
+		}
+	default:
+		if recv {
+			r.comp.NotifyRecv(r.port)
+		} else {
+			r.comp.NotifyPortFree(r.port)
+		}
+	}
 }
 
 // Process implements modeling.EventProcessor.
@@ -61,9 +123,26 @@ func (r *edRun) Process(comp *edComp, now timing.VTimeInPicoSec) bool {
 		ds := r.script[0]
 		r.script = r.script[1:]
 		for _, d := range ds {
-			t := now + timing.VTimeInPicoSec(d)
-			r.add("inreq", now, t)
-			comp.ScheduleWakeAt(t)
+			switch d {
+			case codeNotifyRecv, codeNotifyFree:
+				kind := map[int]string{codeNotifyRecv: "in_notify_recv", codeNotifyFree: "in_notify_free"}[d]
+				r.add(kind, now, now)
+				if r.notify == "gate" {
+					// park here while another goroutine delivers the notification
+					done := make(chan struct{})
+					go func() {
+						defer close(done)
+						r.raise(d == codeNotifyRecv)
+					}()
+					<-done
+				} else {
+					r.raise(d == codeNotifyRecv)
+				}
+			default:
+				t := now + timing.VTimeInPicoSec(d)
+				r.add("inreq", now, t)
+				comp.ScheduleWakeAt(t)
+			}
 		}
 	}
 	return true
@@ -79,10 +158,10 @@ func (r *edRun) ext(op string, d int) {
 		r.comp.ScheduleWakeAt(t)
 	case "notify_recv":
 		r.add("notify_recv", now, now)
-		r.comp.NotifyRecv(nil)
+		r.raise(true)
 	case "notify_free":
 		r.add("notify_free", now, now)
-		r.comp.NotifyPortFree(nil)
+		r.raise(false)
 	}
 }
 
@@ -111,24 +190,32 @@ func (h *envHandler) Handle(e timing.Event) error {
 	return nil
 }
 
-func edReplay(mode string, h replay.History) (log edLog, errText string) {
+func newEdRun(engine timing.Engine, notify string) *edRun {
+	r := &edRun{engine: engine, notify: notify}
+	r.comp = modeling.NewEventDrivenBuilder[edSpec, edState, modeling.None]().
+		WithEngine(engine).
+		WithSpec(edSpec{Label: "c13"}).
+		WithProcessor(r).
+		Build("EDC")
+	r.port = messaging.NewPort(r.comp, 1024, 1, "EDC.Port")
+	r.port.SetConnection(&stubConn{})
+	return r
+}
+
+func edReplay(mode, notify string, h replay.History) (log edLog, errText string) {
 	defer func() {
 		if p := recover(); p != nil {
 			errText = fmt.Sprintf("panic: %v", p)
 		}
 	}()
 	timing.ResetIDGenerator()
-	r := &edRun{engine: timing.NewSerialEngine()}
-	r.comp = modeling.NewEventDrivenBuilder[edSpec, edState, modeling.None]().
-		WithEngine(r.engine).
-		WithSpec(edSpec{Label: "c13"}).
-		WithProcessor(r).
-		Build("EDC")
+	eng := timing.NewSerialEngine()
+	r := newEdRun(eng, notify)
 	isExt := func(op string) bool { return op == "req" || op == "notify_recv" || op == "notify_free" }
 	switch mode {
 	case "outside":
 		eh := &envHandler{r: r}
-		r.engine.RegisterHandler("env", eh)
+		eng.RegisterHandler("env", eh)
 		steps := h.Steps
 		for i := 0; i < len(steps); i++ {
 			a := steps[i].A
@@ -140,7 +227,7 @@ func edReplay(mode string, h replay.History) (log edLog, errText string) {
 				// a clock event moves the engine time to now+1 whatever the component does
 				to := r.engine.CurrentTime() + 1
 				r.engine.Schedule(envEvent{EventBase: timing.MakeEventBase(to, "env"), idx: -1})
-				if err := r.engine.RunUntil(to); err != nil {
+				if err := eng.RunUntil(to); err != nil {
 					return r.log, err.Error()
 				}
 			case op == "dispatch":
@@ -154,14 +241,14 @@ func edReplay(mode string, h replay.History) (log edLog, errText string) {
 					}
 				}
 				i--
-				if err := r.engine.RunUntil(to); err != nil {
+				if err := eng.RunUntil(to); err != nil {
 					return r.log, err.Error()
 				}
 			}
 		}
 	case "inside", "chain":
 		eh := &envHandler{r: r, steps: h.Steps, chain: mode == "chain"}
-		r.engine.RegisterHandler("env", eh)
+		eng.RegisterHandler("env", eh)
 		eh.next = func(from int) {
 			for i := from; i < len(h.Steps); i++ {
 				a := h.Steps[i].A
@@ -187,7 +274,7 @@ func edReplay(mode string, h replay.History) (log edLog, errText string) {
 		return nil, "unknown mode " + mode
 	}
 	// quiescence: everything still queued is dispatched
-	if err := r.engine.Run(); err != nil {
+	if err := eng.Run(); err != nil {
 		return r.log, err.Error()
 	}
 	r.add("end", r.engine.CurrentTime(), 0)
@@ -200,14 +287,131 @@ func eventDrivenDriver(raw json.RawMessage) (any, error) {
 		return nil, err
 	}
 	mode := replay.Str(in.Config["mode"])
+	notify := replay.Str(in.Config["notify"])
+	if notify == "" {
+		notify = "direct"
+	}
 	logs := make([]edLog, len(in.Histories))
 	errs := make([]string, len(in.Histories))
 	for i, h := range in.Histories {
-		logs[i], errs[i] = edReplay(mode, h)
+		logs[i], errs[i] = edReplay(mode, notify, h)
 	}
 	return map[string]any{"logs": logs, "errors": errs}, nil
 }
 
+// ---------------------------------------------------------------- parallel engine
+
+// A scenario on a real timing.ParallelEngine: the component has a wakeup at time T and, at the
+// same instant, another handler ("env") delivers notifications to it. The two events run in
+// different goroutines; the first processor run parks until the env handler has delivered
+// (gates with a timeout, so that an engine that serialises the two cannot hang the driver),
+// i.e. the notification arrives WHILE the processor is running. Further processor runs follow
+// the script like in the serial replay.
+type parScenario struct {
+	T      int     `json:"t"`
+	Notes  []int   `json:"notes"`  // codes 100 / 101 delivered by the env handler during the first run
+	Script [][]int `json:"script"` // in-run operations of the processor runs
+	Notify string  `json:"notify"` // direct | port
+}
+
+type parEnv struct {
+	r       *edRun
+	sc      parScenario
+	parked  chan struct{}
+	done    chan struct{}
+	overlap bool
+}
+
+func (h *parEnv) Handle(e timing.Event) error {
+	select {
+	case <-h.parked:
+		h.overlap = true
+	case <-time.After(2 * time.Second):
+	}
+	now := e.Time()
+	for _, c := range h.sc.Notes {
+		if h.overlap {
+			h.r.add(map[int]string{codeNotifyRecv: "in_notify_recv", codeNotifyFree: "in_notify_free"}[c], now, now)
+		} else {
+			h.r.add(map[int]string{codeNotifyRecv: "notify_recv", codeNotifyFree: "notify_free"}[c], now, now)
+		}
+		h.r.raise(c == codeNotifyRecv)
+	}
+	close(h.done)
+	return nil
+}
+
+type parProc struct {
+	r     *edRun
+	env   *parEnv
+	first bool
+}
+
+func (p *parProc) Process(comp *edComp, now timing.VTimeInPicoSec) bool {
+	if !p.first {
+		p.first = true
+		p.r.add("run", now, 0)
+		comp.State.Runs++
+		close(p.env.parked)
+		select {
+		case <-p.env.done:
+		case <-time.After(4 * time.Second):
+		}
+		return true
+	}
+	return p.r.Process(comp, now)
+}
+
+func edParallel(sc parScenario) (log edLog, overlap bool, errText string) {
+	defer func() {
+		if p := recover(); p != nil {
+			errText = fmt.Sprintf("panic: %v", p)
+		}
+	}()
+	timing.ResetIDGenerator()
+	eng := timing.NewParallelEngine()
+	r := &edRun{engine: eng, notify: sc.Notify, script: sc.Script}
+	env := &parEnv{r: r, sc: sc, parked: make(chan struct{}), done: make(chan struct{})}
+	proc := &parProc{r: r, env: env}
+	r.comp = modeling.NewEventDrivenBuilder[edSpec, edState, modeling.None]().
+		WithEngine(eng).
+		WithSpec(edSpec{Label: "c13"}).
+		WithProcessor(proc).
+		Build("EDC")
+	r.port = messaging.NewPort(r.comp, 1024, 1, "EDC.Port")
+	r.port.SetConnection(&stubConn{})
+	eng.RegisterHandler("env", env)
+	t := timing.VTimeInPicoSec(sc.T)
+	r.add("req", 0, t)
+	r.comp.ScheduleWakeAt(t)
+	eng.Schedule(envEvent{EventBase: timing.MakeEventBase(t, "env"), idx: -1})
+	if err := eng.Run(); err != nil {
+		return r.log, env.overlap, err.Error()
+	}
+	r.add("end", eng.CurrentTime(), 0)
+	return r.log, env.overlap, ""
+}
+
+func eventDrivenParallelDriver(raw json.RawMessage) (any, error) {
+	var in struct {
+		Scenarios []parScenario `json:"scenarios"`
+	}
+	if err := json.Unmarshal(raw, &in); err != nil {
+		return nil, err
+	}
+	logs := make([]edLog, len(in.Scenarios))
+	errs := make([]string, len(in.Scenarios))
+	overlaps := make([]bool, len(in.Scenarios))
+	for i, sc := range in.Scenarios {
+		if sc.Notify == "" {
+			sc.Notify = "direct"
+		}
+		logs[i], overlaps[i], errs[i] = edParallel(sc)
+	}
+	return map[string]any{"logs": logs, "errors": errs, "overlap": overlaps}, nil
+}
+
 func init() {
 	reg.Register("eventdriven", eventDrivenDriver)
+	reg.Register("eventdriven_parallel", eventDrivenParallelDriver)
 }
